@@ -45,12 +45,12 @@ def groupsOf (s : Store) (cluster : String) : List String := (fetchConsumerList 
 def detail (s : Store) (now : Int) (cluster group : String) : FetchResult := (fetchConsumer s now cluster group).2
 
 /-- a detail reply with one topic removed -/
-def FetchResult.eraseTopic (t : String) : FetchResult → FetchResult
+def _root_.Burrow.Storage.FetchResult.eraseTopic (t : String) : FetchResult → FetchResult
   | .found topics => .found (aerase t topics)
   | r => r
 
 /-- does a detail reply mention topic `t`? -/
-def FetchResult.hasTopic (t : String) : FetchResult → Bool
+def _root_.Burrow.Storage.FetchResult.hasTopic (t : String) : FetchResult → Bool
   | .found topics => (alookup t topics).isSome
   | _ => false
 
